@@ -114,6 +114,47 @@ def getDt (remaining ratio : α) (growth : Nat → α) (p : Post α) : α :=
 
 end post
 
+section zenerHost
+variable {α : Type} [Add α] [Mul α] [Div α] [Zero α] [LT α] [DecidableLT α]
+
+/-- what `computeZenerRadius` reads for one precipitate phase of the host at the current host row:
+`pData.Ravg[n, p]`, `pData.volFrac[n, p]` and the spatial-distribution factors `m[phaseName]`, `K[phaseName]`
+(phase-specific entry or the 'all' entry) -/
+structure ZPhase (α : Type) where
+  ravg : α
+  volFrac : α
+  m : α
+  K : α
+
+/-- drag of one phase `z_j = f_j^m_j / (K_j * avgR_j)`; `pw` = `np.power` -/
+def zenerTerm (pw : α → α → α) (p : ZPhase α) : α := pw p.volFrac p.m / (p.K * p.ravg)
+
+/-- the per-phase guard of `computeZenerRadius`: `Ravg[n, p] > 0` (the phase has precipitates) -/
+def ZPhase.populated (p : ZPhase α) : Bool := decide (0 < p.ravg)
+
+/-- `computeZenerRadius` (GrainGrowth.py 277-298) as it is: `z = np.zeros(P)`; for every phase in host order
+`if Ravg > 0: z[p] += term` (a phase without precipitates is SKIPPED, its entry stays 0); `self._z = np.sum(z)` -/
+def zenerDrag (pw : α → α → α) (phases : List (ZPhase α)) : α :=
+  (phases.map (fun p => if p.populated then zenerTerm pw p else 0)).foldl (fun s x => s + x) 0
+
+/-- the specification: the sum of the per-phase terms over the phases WITH precipitates -/
+def zenerSpec (pw : α → α → α) (phases : List (ZPhase α)) : α :=
+  ((phases.filter (fun p => p.populated)).map (zenerTerm pw)).foldl (fun s x => s + x) 0
+
+/-- VARIANT (not the code): the guard as an early exit — the first phase without precipitates ends the
+loop with `self._z = 0` (`acc` = the partial sum so far, discarded) -/
+def zenerDragEarlyExit (pw : α → α → α) : List (ZPhase α) → α → α
+  | [], acc => acc
+  | p :: ps, acc => if p.populated then zenerDragEarlyExit pw ps (acc + zenerTerm pw p) else 0
+
+/-- VARIANT (not the code): the guard as a `break` — the first phase without precipitates ends the loop,
+the partial sum is kept -/
+def zenerDragBreak (pw : α → α → α) : List (ZPhase α) → α → α
+  | [], acc => acc
+  | p :: ps, acc => if p.populated then zenerDragBreak pw ps (acc + zenerTerm pw p) else acc
+
+end zenerHost
+
 section mean
 variable {α : Type} [Add α] [Sub α] [Mul α] [Div α] [Neg α] [Zero α] [One α]
   [LT α] [DecidableLT α] [LE α] [DecidableLE α] [Trans α]
